@@ -112,7 +112,8 @@ pub fn run_obs(op: &str, step: &Value, regs: &Regs, ctx: &mut Ctx, keys: &crate:
             }
             // markers of obscured elements in the tree rendering (one line per element)
             let count = |w: &str| tree.lines().filter(|l| l.trim_end().ends_with(w)).count();
-            json!({"elided": count("ELIDED"), "encrypted": count("ENCRYPTED"), "compressed": count("COMPRESSED"), "elements": tree.lines().count()})
+            json!({"elided": count("ELIDED"), "encrypted": count("ENCRYPTED"), "compressed": count("COMPRESSED"), "elements": tree.lines().count(),
+                   "flat": flat, "hier": f1})
         }
         "obs_tree_format" => {
             let e = reg(regs, a(0))?;
@@ -731,6 +732,24 @@ pub fn compare_obs(op: &str, want: &Value, got: &Value, ctx: &mut Ctx, natural_o
             let w = Value::Array(flat);
             if &w != got {
                 return Err(format!("walk differs: specification {} library {}", w, got));
+            }
+            Ok(())
+        }
+        "obs_format" => {
+            for k in ["elided", "encrypted", "compressed", "elements"] {
+                if want[k] != got[k] {
+                    return Err(format!("{}: specification {} library {}", k, want[k], got[k]));
+                }
+            }
+            // the notation is the layout of the specification's notation term
+            if let Some(item) = crate::notation::build(&want["notation"], ctx)? {
+                let (wf, wh) = (crate::notation::flat(&item), crate::notation::hier(&item));
+                if got["flat"].as_str() != Some(&wf) {
+                    return Err(format!("#notation-flat# format_flat gives {:?}, the specification's notation is {:?}", got["flat"].as_str().unwrap_or(""), wf));
+                }
+                if got["hier"].as_str() != Some(&wh) {
+                    return Err(format!("#notation# format gives {:?}, the specification's notation is {:?}", got["hier"].as_str().unwrap_or(""), wh));
+                }
             }
             Ok(())
         }
